@@ -738,7 +738,7 @@ def rule_r15(chk, prog):
                               'as the simplified candidate',
                               loc=m.loc(c), nontrivial=True)
     chk.floor('C11.R15', 'applications of a simplification in the '
-              'strategies', n, 2)
+              'strategies', n, 1)
 
 
 def run(tier):
